@@ -59,10 +59,18 @@ type cfg struct {
 	must       int // submitter index that uses MustExecute (-1: none)
 	panicJob   bool
 	closer     bool
+	// gate: the first job waits until its submitter has handed over all the others, so that one
+	// drainer consumes the whole backlog in one go (jobsEach may be large: more than any internal
+	// threshold of the queue)
+	gate bool
 }
 
 func (c cfg) name() string {
-	return fmt.Sprintf("exec=%s sub=%d jobs=%d must=%d panic=%v close=%v", c.exec, c.submitters, c.jobsEach, c.must, c.panicJob, c.closer)
+	n := fmt.Sprintf("exec=%s sub=%d jobs=%d must=%d panic=%v close=%v", c.exec, c.submitters, c.jobsEach, c.must, c.panicJob, c.closer)
+	if c.gate {
+		n += " backlog-behind-gate"
+	}
+	return n
 }
 
 var lastCounters map[string]int
@@ -92,10 +100,11 @@ func body(c cfg) func() {
 		fd, _ := vsys.NewStreamPair(false, 64, 64)
 		conn := nbio.VerifBareConn(g, fd, nbio.ConnTypeTCP)
 
-		for s := 0; s < c.submitters; s++ {
-			s := s
-			vsched.GoNamed(fmt.Sprintf("submitter%d", s), func() {
-				for j := 0; j < c.jobsEach; j++ {
+		submitted := 0
+		var submitMore func(j int)
+		submit := func(s, j int) {
+			{
+				{
 					jr := &jobRec{id: fmt.Sprintf("s%dj%d", s, j), submitter: s, must: s == c.must, panics: c.panicJob && s == 0 && j == 0}
 					w.jobs = append(w.jobs, jr)
 					fn := func() {
@@ -105,7 +114,18 @@ func body(c cfg) func() {
 						}
 						w.running = jr.id
 						jr.starts = append(jr.starts, w.tick())
-						vsched.Point() // the job takes time: let everything else interleave
+						switch {
+						case c.gate && j == 0:
+							// the first job hands over all the others itself: they queue up behind it and
+							// the drainer that runs it consumes them in one go
+							for submitted < c.jobsEach-1 {
+								submitted++
+								submitMore(submitted)
+							}
+						case c.gate && j > 3:
+						default:
+							vsched.Point() // the job takes time: let everything else interleave
+						}
 						w.running = ""
 						jr.ends = append(jr.ends, w.tick())
 						if jr.panics {
@@ -121,6 +141,19 @@ func body(c cfg) func() {
 						jr.accepted = conn.Execute(fn)
 					}
 					jr.retSeq = w.tick()
+				}
+			}
+		}
+		submitMore = func(j int) { submit(0, j) }
+		for s := 0; s < c.submitters; s++ {
+			s := s
+			vsched.GoNamed(fmt.Sprintf("submitter%d", s), func() {
+				n := c.jobsEach
+				if c.gate {
+					n = 1
+				}
+				for j := 0; j < n; j++ {
+					submit(s, j)
 				}
 			})
 		}
@@ -171,8 +204,11 @@ func body(c cfg) func() {
 			}
 		}
 		// order: same submitter; and real-time precedence between submitters
-		for _, a := range w.jobs {
-			for _, b := range w.jobs {
+		for ai, a := range w.jobs {
+			for bi, b := range w.jobs {
+				if c.gate && bi != ai+1 {
+					continue // one submitter, call order = index order: neighbours are enough
+				}
 				if a == b || len(a.starts) == 0 || len(b.starts) == 0 {
 					continue
 				}
@@ -244,6 +280,14 @@ func build(tier string) []*vkit.Scenario {
 		add(cfg{exec: e, submitters: 2, jobsEach: 1, must: 1, closer: true}, pq)
 		add(cfg{exec: e, submitters: 2, jobsEach: 2, must: -1, closer: true}, pq)
 		add(cfg{exec: e, submitters: 3, jobsEach: 1, must: 2}, pq)
+		// one drainer run over a backlog that is longer than any threshold inside the queue
+		out = append(out, &vkit.Scenario{
+			Name: cfg{exec: e, submitters: 1, jobsEach: 1300, must: -1, gate: true}.name(), Body: body(cfg{exec: e, submitters: 1, jobsEach: 1300, must: -1, gate: true}), Check: check, P: 0, D: 0,
+			Opts:       vsched.Options{Horizon: 200000},
+			Counters:   func() map[string]int { return lastCounters },
+			Outcome:    func() string { return fmt.Sprintf("%d jobs", strings.Count(lastOutcome, ",")+1) },
+			NonTrivial: func(m map[string]int) bool { return m["handover_or_async"] > 0 },
+		})
 		if tier == "thorough" {
 			add(cfg{exec: e, submitters: 3, jobsEach: 2, must: 0, closer: true, panicJob: true}, pq)
 			add(cfg{exec: e, submitters: 3, jobsEach: 2, must: -1}, pq)
